@@ -289,6 +289,13 @@ def cost_role(G: Greedy, u: ast.AugAssign, stores: list[ast.Assign]) -> str | No
             if isinstance(g.target, ast.Tuple) and len(g.target.elts) == 2 and norm(d.value.key) == norm(g.target.elts[0]) \
                     and norm(d.value.value) == f'sum({norm(g.target.elts[1])}.values())' and norm(g.iter).endswith('.items()'):
                 return f'summed cost of {norm(v.slice)}'
+    # the sum written out in place: sum(W[layer].values()) with W the work parameter the costs come from
+    if isinstance(v, ast.Call) and norm(v.func) == 'sum' and len(v.args) == 1 and not v.keywords:
+        a = v.args[0]
+        if isinstance(a, ast.Call) and isinstance(a.func, ast.Attribute) and a.func.attr == 'values' and not a.args \
+                and isinstance(a.func.value, ast.Subscript) and isinstance(a.func.value.value, ast.Name) and a.func.value.value.id in G.f.params \
+                and norm(a.func.value.slice) in keys:
+            return f'summed cost of {norm(a.func.value.slice)}'
     return None
 
 
